@@ -81,6 +81,21 @@ def idealExec (cfg : Cfg) (a : Nat) : Nat :=
   if cfg.num = cfg.den ∨ cfg.initial = 0 then min cfg.initial cfg.capNs
   else go cfg.capNs cfg.num cfg.den (expo a) cfg.initial 1
 
+/-- the same loop, also counting the multiplications actually needed: `(value, k)` with `k` the first exponent at
+which the cap is reached, or the whole exponent if it never is -/
+def goP (cap p q : Nat) : Nat → Nat → Nat → Nat → Nat × Nat
+  | 0, n, d, k => (min (n / d) cap, k)
+  | f + 1, n, d, k => if cap ≤ n / d then (cap, k) else goP cap p q f (n * p) (d * q) (k + 1)
+
+/-- `(ideal, effective exponent)`: the effective exponent is `min (expo a) (first exponent at which
+`⌊initial·m^e⌋` reaches the cap)`; 0 for multiplier 1 / initial interval 0 (`powi(1.0, e)` is exactly 1) -/
+def idealExecP (cfg : Cfg) (a : Nat) : Nat × Nat :=
+  if cfg.num = cfg.den ∨ cfg.initial = 0 then (min cfg.initial cfg.capNs, 0)
+  else goP cfg.capNs cfg.num cfg.den (expo a) cfg.initial 1 0
+
+/-- the number of factors `m` in the product that decides the answer -/
+def effExp (cfg : Cfg) (a : Nat) : Nat := (idealExecP cfg a).2
+
 /-! ## jitter (`ExponentialRandomBackoff::randomize`), factor `pct`/100 ∈ [0,1] -/
 
 def jitterLo (x pct : Nat) : Nat := x * (100 - pct) / 100
@@ -125,20 +140,32 @@ def exactRegion (cfg : Cfg) : Bool :=
 def tol (x : Nat) : Nat := x / 2 ^ 40 + 1
 def near (v x : Nat) : Bool := decide (v ≤ x + tol x) && decide (x ≤ v + tol x)
 
+/-- The tolerance as a function of the exponent `e`. With `u = 2^-53`: the `f64` multiplier is `m(1+δ)`, `|δ| ≤ u`, so
+`powi` is handed a number whose `e`-th power is off by `e·δ` (systematic, linear in `e`: for `m = 1.01` it is what
+dominates); `__powidf2` (square-and-multiply) rounds at most `e − 1` times in first-order units (a square doubles the
+relative error and adds `u`); `as_secs_f64`, the product and `from_secs_f64` round once each. Relative error
+`≤ (2e + 2)·u` to first order; `(2e + 8)·u` with slack for the higher-order terms, plus one nanosecond. For
+`e ≤ 4092` that is within the `2^-40` the envelope had before (`8192·u = 2^-40`), so nothing changes there
+(`tolE_eq_tol`); beyond, it grows linearly. `e` is the EFFECTIVE exponent (`effExp`): once the exact value has
+reached the cap, further factors do not matter (`powi_mono`). -/
+def tolE (x e : Nat) : Nat := x * max 8192 (2 * e + 8) / 2 ^ 53 + 1
+def nearE (v x e : Nat) : Bool := decide (v ≤ x + tolE x e) && decide (x ≤ v + tolE x e)
+
 /-- un-jittered kinds. Inside the exact region: exactly `ideal`. Outside: never above the cap, and within the
 tolerance of `ideal` (which equals the cap from the attempt at which the exact value reaches it); monotonicity in the
 attempt number is checked against the history of accepted values (`obsOk`). -/
 def allowedExp (cfg : Cfg) (a v : Nat) : Bool :=
   if exactRegion cfg then v == idealExec cfg a
-  else decide (v ≤ cfg.capNs) && near v (idealExec cfg a)
+  else decide (v ≤ cfg.capNs) && nearE v (idealExecP cfg a).1 (idealExecP cfg a).2
 
 /-- jittered kinds: within the randomization factor `fn/fd` of the capped value (± tolerance), ≤ `Duration::MAX`.
 The value `d` the code jitters is itself float-computed and rounded to the nearest nanosecond (`|d − x| ≤ tol x`, the
 envelope of the un-jittered kinds), so `d(1+f) ≤ x(1+f) + 2·tol x`, and the conversion of the draw rounds once more
 (the same slack as the python monitor: it matters for delays of a few nanoseconds only). -/
 def allowedRand (cfg : Cfg) (fn fd a v : Nat) : Bool :=
-  let x := idealExec cfg a
-  decide (jitterLoQ x fn fd ≤ v + tol x + 1) && decide (v ≤ jitterHiQ x fn fd + 2 * tol x + 1) && decide (v ≤ durMax)
+  let x := (idealExecP cfg a).1
+  let t := tolE x (idealExecP cfg a).2
+  decide (jitterLoQ x fn fd ≤ v + t + 1) && decide (v ≤ jitterHiQ x fn fd + 2 * t + 1) && decide (v ≤ durMax)
 
 /-! ## the observed values are monotone in the attempt number
 
